@@ -77,9 +77,18 @@ def main():
     if store:
         d = os.path.join(V, 'seeded', store)
         os.makedirs(d, exist_ok=True)
-        shutil.copy(patch, os.path.join(d, 'patch.diff'))
-        shutil.copy(demo, os.path.join(d, 'demo.py'))
+        for src, name in ((patch, 'patch.diff'), (demo, 'demo.py')):
+            if os.path.abspath(src) != os.path.join(d, name):
+                shutil.copy(src, os.path.join(d, name))
         meta = {'breaks_property': pid}
+        old = os.path.join(d, 'meta.json')
+        if not meta_in and os.path.exists(old):  # re-run of a stored change: keep the author's description
+            try:
+                o = json.load(open(old))
+                for k in ('summary', 'needs_to_manifest', 'author_tests_run'):
+                    meta[k] = o.get(k)
+            except Exception:  # noqa
+                pass
         if meta_in and os.path.exists(meta_in):
             try:
                 m = json.load(open(meta_in))
